@@ -34,7 +34,13 @@ section reuse
 set_option linter.unusedSectionVars false
 variable {α : Type} [Scalar α] {F : Type}
 
-/-- **dirfn_reinit_rebuilds**: `DirectionFunction::init(p, xi)` on an object `old` left by any earlier
+/-- **dirfn_reinit_rebuilds** — a *transcription sentinel*: it holds by definition of `DirFn.reinit` (the
+proof is `rfl` field by field) and says nothing about DirectionFunction.cpp beyond that transcription
+(DirectionFunction.cpp:46-56, tied by the differential check).  It is kept because it names, in one
+place, what the re-use theorems below rest on, and because a transcription of `init` that kept `xt_`
+(the seeded change C10-b1) makes it false.  The theorems with content are `line_minimization_reuse` and
+`line_search_reuse` (`params_`, the one member that survives, is dead).
+`DirectionFunction::init(p, xi)` on an object `old` left by any earlier
 searches — other lists, other constraints, another policy, another dimension: the working point `xt_`
 and `p_` are the list given *now* under the policy set *now*, `xi_` the direction given now, the counter
 is 0; the object differs from a fresh one by `params_` only. -/
@@ -144,6 +150,9 @@ theorem golden_per_run : PerRun ⟨(gssAlgo (Fn.iface obj D cap) fuel).init, gss
 
 theorem brent_per_run : PerRun ⟨(brentAlgo (Fn.iface obj D cap) fuel).init, brentOptimize (Fn.iface obj D cap)⟩ AdmList :=
   fun params s hp ha hs => brent_auto_policy_feasible obj D cap fuel params s hp ha.1 ha.2 hs
+
+theorem backtrack_per_run : PerRun ⟨(nbackAlgo (Fn.iface obj D cap)).init, (nbackAlgo (Fn.iface obj D cap)).optimize⟩ AdmList :=
+  fun params s hp ha hs => backtrack_auto_policy_feasible obj D cap params s hp ha.1 ha.2 hs
 
 theorem newton1d_per_run : PerRun ⟨(newtonAlgo (Fn.iface obj D cap)).init, (newtonAlgo (Fn.iface obj D cap)).optimize⟩ AdmList :=
   fun params s hp ha hs => newton1d_auto_policy_feasible obj D cap params s hp ha.1 ha.2 hs
